@@ -124,8 +124,9 @@ def random_spec(rng, quick, trial_flip=False, odd_options=False):
         else:
             o["report_timestep"] = 3 * hyd
     spec = add_controls(rng, spec, trial_flip=trial_flip)
-    if not trial_flip and not odd_options and o["duration"] >= 2 * hyd and rng.random() < 0.15:
-        spec["c16_restart"] = hyd * rng.randint(1, o["duration"] // hyd - 1)
+    if not odd_options and o["duration"] >= hyd and rng.random() < 0.3:
+        # a continued run; `c16_restart == duration` = the model was already simulated to the end (run_sim must be a no-op)
+        spec["c16_restart"] = hyd * rng.randint(1, o["duration"] // hyd) if rng.random() < 0.8 else o["duration"]
     return spec
 
 
@@ -226,7 +227,8 @@ def observe_run(spec, plan=None, backup=None, conv_err=False, max_calls=None, ke
             wntr.sim.WNTRSimulator(wn).run_sim()
         wn.options.time.duration = full
     sim = wntr.sim.WNTRSimulator(wn)
-    obs = {"outs": [], "pres": [], "posts": [], "rows": [], "save_times": [], "kinds_hit": []}
+    obs = {"outs": [], "pres": [], "posts": [], "rows": [], "save_times": [], "kinds_hit": [],
+           "t0": (wn.sim_time, wn._prev_sim_time)}
     orig_helper = core._solver_helper
     orig_spsolve = spla.spsolve
     orig_changes = ControlChangeTracker.changes_made
@@ -388,10 +390,10 @@ def model_line(obs, cap=10 ** 15):
     rep = obs["report"]
     rep = 0 if isinstance(rep, str) else int(rep)
     pres = ",".join(str(int(p[3])) for p in obs["pres"]) or "-"
-    first = obs["pres"][0] if obs["pres"] else (0, -1, True, 0)
+    t0, p0 = obs["t0"]
     return "run %d %d %d %d %d %d %d %d %d %s %s %s" % (
         int(obs["hyd"]), rep, int(obs["duration"]), int(obs["trials"]), 1 if obs["backup"] else 0, 1 if obs["conv_err"] else 0,
-        int(first[0]), int(first[1]) if not first[2] else 0, cap, pres, "".join(obs["outs"]) or "-",
+        int(t0), int(p0) if (t0 != 0 and p0 is not None) else 0, cap, pres, "".join(obs["outs"]) or "-",
         "".join("1" if b else "0" for b in obs["posts"]) or "-")
 
 
@@ -408,7 +410,7 @@ def parse_model(line):
 
 
 def integral_times(obs):
-    return all(float(x) == int(x) for p in obs["pres"] for x in (p[0], p[1], p[3]))
+    return all(float(x) == int(x) for p in obs["pres"] for x in (p[0], p[1], p[3])) and float(obs["t0"][0]) == int(obs["t0"][0])
 
 
 # ----------------------------------------------------------------------------- translator: run_sim -> Gen/RunLoopShape.lean
@@ -824,6 +826,10 @@ class C16(Check):
                     ctx.count("runs_with_resolve")
                 if spec.get("c16_restart") is not None:
                     ctx.count("continued_runs")
+                    if obs["t0"][0] > obs["duration"]:
+                        ctx.count("continued_completed_noop")
+                    elif obs["kinds_hit"]:
+                        ctx.count("continued_with_fault_hit")
                 if isinstance(obs["report"], str):
                     ctx.count("report:ALL")
                 elif obs["report"] != obs["hyd"]:
@@ -874,6 +880,8 @@ class C16(Check):
                     diffs.append("streams not consumed exactly: left=%s starved=%s" % (m["left"], m["starved"]))
                 if m["fuel"] != "ok":
                     diffs.append("fuel capped")
+                if m.get("interp") != "same":
+                    diffs.append("the interpretation of the generated loop program differs from the hand-written step")
                 if diffs:
                     ctx.count("model_disagreements")
                     broken.append(Broken("correspondence", "RunLoopDriver vs run_sim", "; ".join(diffs) + "\n" + line + "\n" + ans))
